@@ -69,7 +69,7 @@ def run(ctx):
     if q:
         sl = sl[:420]
     fam = []
-    for name, cnt in (("regular", 30), ("star", 30), ("longedge", 40), ("antipodal", 60), ("nearpi", 60)):
+    for name, cnt in (("regular", 30), ("star", 30), ("longedge", 40), ("antipodal", 60), ("nearpi", 60), ("strip", 40)):
         for k in range(3 if q else 30):
             fam.append({"op": "c18.rand", "family": name, "seed": ctx.seed * 100 + k, "count": cnt if q else cnt * 2,
                         "maxn": 1000 if q else 10000})
